@@ -66,6 +66,8 @@ typedef struct private_state {
 
   int                     modebits;
   int                     halfrate; /* decode: half-rate shift this state was built with */
+  int                     lapped;   /* decode: the current block has already been
+                                       consolidated by vorbis_synthesis_lapout */
   vorbis_look_floor     **flr;
   vorbis_look_residue   **residue;
   vorbis_look_psy        *psy;
